@@ -1,33 +1,48 @@
 import Autd3.Lemmas.Ctl
 /-!
-# C04 — `send()` reports success only when every device acknowledged every frame
+# C04 — `send()` reports success only when every enabled device acknowledged every frame
 
 Property theorems only.  The model is `Model/Ctl.lean` (mirror of `Sender::send`, `send_impl`,
-`send_receive`, `wait_msg_processed`, `open_impl`, `check_if_msg_is_processed`, `check_firmware_err`,
-`firmware_err`, the message-id rule of `OperationHandler::pack` and the duplicate-id check of
-`CPUEmulator::ecat_recv`); it is tied to the Rust code by the `sender` stream (and, for the async
-copy, `sender_async`).  The specification side lives in `Lemmas/Ctl.lean` and speaks only about
-observables: the returned result and the sequence of calls the link saw —
+`send_receive`, `wait_msg_processed`, `open_impl`, `close_impl`, `check_if_msg_is_processed`,
+`check_firmware_err`, `firmware_err`, `OperationHandler::generate`/`pack` with their `dev.enable`
+filter and the message-id rule, and the duplicate-id check of `CPUEmulator::ecat_recv`); it is tied to
+the Rust code by the `sender` stream (and, for the async copy, `sender_async`).  The specification
+side lives in `Lemmas/Ctl.lean` and speaks only about observables: the returned result and the
+sequence of calls the link saw, read through the devices' `enable` flags `en` (`St.enable`; a
+disabled device receives nothing, so "all devices" in the property means all **enabled** devices;
+`masked en xs` is the sub-list of `xs` that belongs to enabled devices) —
 
-* `ackedBeforeNext none tr`: every transmitted frame (`send tx true`) is followed, before the next
-  transmission and before the end, by a `receive` whose acknowledgements are exactly that frame's
-  message ids, device by device;
-* `walk tz ⟨none, .stuck⟩ tr`: the verdict the property prescribes when the last call in `tr` is the
+* `ackedBeforeNext en none tr`: every transmitted frame (`send tx true`) is followed, before the next
+  transmission and before the end, by a `receive` in which every enabled device's acknowledgement is
+  exactly that frame's message id for that device;
+* `walk tz en ⟨none, .stuck⟩ tr`: the verdict the property prescribes when the last call in `tr` is the
   last thing the link said (`callVerdict`): closed ⇒ `LinkClosed`; a failed `update`/`send`/`receive`
-  ⇒ that link error; a `receive` that acknowledges the last frame ⇒ `Ok`; otherwise the first
-  device (in order) with the error bit ⇒ `firmware_err(ack)`; otherwise `Ok` if the timeout is zero,
-  `ConfirmResponseFailed` if not.
+  ⇒ that link error; a `receive` in which all enabled devices acknowledge the last frame ⇒ `Ok`;
+  otherwise the first **enabled** device (in order) with the error bit ⇒ `firmware_err(ack)`;
+  otherwise `Ok` if the timeout is zero, `ConfirmResponseFailed` if not;
+* `blank en rx` wipes what the disabled devices said: two link scripts with the same `blankScript`
+  differ only in the bytes disabled devices answer.
 
-All theorems are for every state with one `RxMessage` per `TxMessage` (`St.wf`; established by
-`open`, preserved by `send`: `open_establishes_wf`, `send_preserves_wf`), every number of devices,
-every set of operations, every link script.  `Res.stuck` marks an exhausted script (the real loop
-would still be running); `terminates_*` show when it cannot occur.
+All theorems are for every state with one `RxMessage` and one `enable` flag per `TxMessage`
+(`St.wf`; established by `open`, preserved by `send`: `open_establishes_wf`, `send_preserves_wf`),
+every number of devices, **every enable mask**, every set of operations, every link script.
+`Res.stuck` marks an exhausted script (the real loop would still be running); `terminates_*` show
+when it cannot occur.
 -/
 namespace Autd3.Ctl
 
-/-- the state invariant holds after `open` … -/
+private theorem send_enable (opt : Option Nat) (d : Datagram) (st : St) (sc : SendScript) :
+    (send opt d st sc).2.1.enable = st.enable := by
+  simp only [send]
+  split
+  · rfl
+  · simp only [sendImpl]; split
+    · rfl
+    · exact sendLoop_enable _ _ _ _ _
+
+/-- the state invariant holds after `open`, and `open` starts with every device enabled … -/
 theorem open_establishes_wf (isAsync : Bool) (n : Nat) (opt : Option Nat) (o : OpenScript) (st : St)
-    (h : (openWithOption isAsync n opt o).2.1 = some st) : st.wf = true := by
+    (h : (openWithOption isAsync n opt o).2.1 = some st) : st.wf = true ∧ st.enable = List.replicate n true := by
   unfold openWithOption at h
   split at h
   · simp at h
@@ -35,7 +50,7 @@ theorem open_establishes_wf (isAsync : Bool) (n : Nat) (opt : Option Nat) (o : O
     split at h
     · simp only [Option.some.injEq] at h
       subst h
-      have w0 : ({ tx := List.replicate n ⟨0, 0⟩, rx := List.replicate n ⟨0, 0⟩ } : St).wf = true := by
+      have w0 : ({ tx := List.replicate n ⟨0, 0⟩, rx := List.replicate n ⟨0, 0⟩, enable := List.replicate n true } : St).wf = true := by
         simp [St.wf]
       have send_wf : ∀ (d : Datagram) (s : St) (sc : SendScript), s.wf = true → (send opt d s sc).2.1.wf = true := by
         intro d s sc hs
@@ -45,12 +60,14 @@ theorem open_establishes_wf (isAsync : Bool) (n : Nat) (opt : Option Nat) (o : O
         · simp only [sendImpl]; split
           · exact hs
           · exact sendLoop_wf _ _ _ _ _ hs
-      exact send_wf _ _ _ (send_wf _ _ _ w0)
+      refine ⟨send_wf _ _ _ (send_wf _ _ _ w0), ?_⟩
+      rw [send_enable, send_enable]
     · simp at h
 
-/-- … and is preserved by every `send`, whatever its outcome -/
+/-- … and is preserved by every `send`, whatever its outcome; `send` never changes an `enable` flag -/
 theorem send_preserves_wf (opt : Option Nat) (d : Datagram) (st : St) (sc : SendScript) (h : st.wf = true) :
-    (send opt d st sc).2.1.wf = true := by
+    (send opt d st sc).2.1.wf = true ∧ (send opt d st sc).2.1.enable = st.enable := by
+  refine ⟨?_, send_enable opt d st sc⟩
   simp only [send]
   split
   · exact h
@@ -59,11 +76,11 @@ theorem send_preserves_wf (opt : Option Nat) (d : Datagram) (st : St) (sc : Send
     · exact sendLoop_wf _ _ _ _ _ h
 
 /-- **`ok_sound`**: with a non-zero timeout, `send` returns `Ok` only if every frame it transmitted
-was acknowledged by all devices (a `receive` returned exactly its message ids) before the next frame
-went out and before `send` returned. -/
+was acknowledged by every **enabled** device (a `receive` returned exactly its message id for each of
+them) before the next frame went out and before `send` returned — for every enable mask. -/
 theorem ok_sound (opt : Option Nat) (d : Datagram) (st : St) (sc : SendScript) (hwf : st.wf = true)
     (hto : opt.getD d.timeoutMs ≠ 0) (hok : (send opt d st sc).1 = .ok) :
-    ackedBeforeNext none (send opt d st sc).2.2 = true := by
+    ackedBeforeNext st.enable none (send opt d st sc).2.2 = true := by
   have htz : (opt.getD d.timeoutMs == 0) = false := by simpa using hto
   simp only [send, htz] at hok ⊢
   split at hok
@@ -75,18 +92,19 @@ theorem ok_sound (opt : Option Nat) (d : Datagram) (st : St) (sc : SendScript) (
     · rename_i hu
       simp only [hu]
       simp only [Bool.false_eq_true, if_false] at hok ⊢
-      have := sendLoop_acked d.tag sc.frames st d.frames hwf hok []
+      have := sendLoop_acked d.tag sc.frames st (generate st.enable d.frames) hwf hok []
       simpa [ackedBeforeNext, ackStep] using this
 
 /-- **`err_mapping`**: whatever the link does, the result of `send` is the one the property
 prescribes for the last thing the link said (see `callVerdict`): `LinkClosed` iff it said "closed",
-the link's error iff a call failed, the first reporting device's own `firmware_err` when the last
-`receive` carried an error acknowledgement and did not acknowledge the frame, `ConfirmResponseFailed`
-when it carried neither and the timeout is non-zero, `Ok` when it acknowledged the last frame (or
-the timeout is zero and no device reported an error). -/
+the link's error iff a call failed, the first reporting **enabled** device's own `firmware_err` when
+the last `receive` carried an error acknowledgement of an enabled device and did not acknowledge the
+frame, `ConfirmResponseFailed` when it carried neither and the timeout is non-zero, `Ok` when every
+enabled device acknowledged the last frame (or the timeout is zero and no enabled device reported an
+error).  What disabled devices answered does not enter the verdict. -/
 theorem err_mapping (opt : Option Nat) (d : Datagram) (st : St) (sc : SendScript) (hwf : st.wf = true)
     (hg : d.genFail = false) (hns : (send opt d st sc).1 ≠ .stuck) :
-    (walk (opt.getD d.timeoutMs == 0) ⟨none, .stuck⟩ (send opt d st sc).2.2).verdict = (send opt d st sc).1 := by
+    (walk (opt.getD d.timeoutMs == 0) st.enable ⟨none, .stuck⟩ (send opt d st sc).2.2).verdict = (send opt d st sc).1 := by
   simp only [send, hg, sendImpl] at hns ⊢
   simp only [Bool.false_eq_true, if_false] at hns ⊢
   split
@@ -94,9 +112,67 @@ theorem err_mapping (opt : Option Nat) (d : Datagram) (st : St) (sc : SendScript
   · rename_i hu
     simp only [hu] at hns
     simp only [Bool.false_eq_true, if_false] at hns
-    have := sendLoop_walk (opt.getD d.timeoutMs == 0) d.tag sc.frames st d.frames hwf
-      (walkStep (opt.getD d.timeoutMs == 0) ⟨none, .stuck⟩ (.update true)) hns
+    have := sendLoop_walk (opt.getD d.timeoutMs == 0) d.tag sc.frames st (generate st.enable d.frames) hwf
+      (walkStep (opt.getD d.timeoutMs == 0) st.enable ⟨none, .stuck⟩ (.update true)) hns
     simpa [walk] using this
+
+/-- **`disabled_acks_irrelevant`**: what a disabled device answers — any bytes: stale error
+acknowledgements, the id its frame happens to carry, garbage — never influences anything.  Two runs of
+`send` from states that differ only in the receive-buffer entries of disabled devices, against link
+scripts that differ only in what disabled devices answer (`blankScript`), return the same result,
+leave the same frames, flags and enabled devices' receive entries, and make the same calls on the
+link (same frames sent; receives equal up to the disabled devices' entries). -/
+theorem disabled_acks_irrelevant (opt : Option Nat) (d : Datagram) (st st' : St) (sc sc' : SendScript)
+    (hst : blankSt st = blankSt st') (hsc : blankScript st.enable sc = blankScript st.enable sc') :
+    (send opt d st sc).1 = (send opt d st' sc').1 ∧
+    blankSt (send opt d st sc).2.1 = blankSt (send opt d st' sc').2.1 ∧
+    (send opt d st sc).2.2.map (blankCall st.enable) = (send opt d st' sc').2.2.map (blankCall st.enable) := by
+  have hen : st.enable = st'.enable := by
+    have : (blankSt st).enable = (blankSt st').enable := congrArg St.enable hst
+    exact this
+  have a := send_blank opt d st sc
+  have b := send_blank opt d st' sc'
+  rw [← hen, ← hst, ← hsc] at b
+  exact ⟨a.1.symm.trans b.1, a.2.1.symm.trans b.2.1, a.2.2.symm.trans b.2.2⟩
+
+/-- **`disabled_tx_untouched`**: `send` never changes the frame (and so the message id) of a
+disabled device, whatever its outcome. -/
+theorem disabled_tx_untouched (opt : Option Nat) (d : Datagram) (st : St) (sc : SendScript) (i : Nat)
+    (h : st.enable[i]? = some false) : (send opt d st sc).2.1.tx[i]? = st.tx[i]? := by
+  simp only [send]
+  split
+  · rfl
+  · simp only [sendImpl]; split
+    · rfl
+    · exact sendLoop_disabled _ _ _ _ _ i h
+
+/-- **a disabled device receives nothing**: the slot a delivering link hands to a disabled device is
+the frame that device has already seen (`disabled_tx_untouched`: same message id), so the device drops
+it as a duplicate — its handlers are not invoked and its state, acknowledgement included, stays as it
+was.  (`d.lastMsgId = t.msgId` is what a delivering link leaves behind: the id of the last frame.) -/
+theorem disabled_device_receives_nothing (tag : Nat) (en : List Bool) (tx : List Tx) (ops : List Nat)
+    (ds : List Dev) (i : Nat) (d : Dev) (t : Tx) (h : en[i]? = some false) (hd : ds[i]? = some d)
+    (ht : tx[i]? = some t) (hid : d.lastMsgId = t.msgId) :
+    (deliver ds (pack tag en tx ops).1)[i]? = some (d, false) := by
+  have hp := pack_disabled tag en tx ops i h
+  rw [ht] at hp
+  rw [deliver_getElem ds _ i d t hd hp]
+  simp [ecatRecv, hid]
+
+/-- `close_impl` on an open link enables every device before it sends (so its three datagrams go to
+all devices); on a closed link it leaves the state alone -/
+theorem close_enables_all (st : St) (c : CloseScript) :
+    (closeImpl st c).2.1.enable = if c.isOpen then st.enable.map (fun _ => true) else st.enable := by
+  unfold closeImpl
+  cases c.isOpen
+  · rfl
+  · simp only [Bool.not_true, Bool.false_eq_true, if_false, if_true]
+    rw [send_enable, send_enable, send_enable]
+
+/-- with every device enabled the enabled sub-list is the whole list: the statements above then
+read "all devices", as they did before the mask was modelled -/
+theorem all_enabled_is_everything {α : Type} (xs : List α) : masked (List.replicate xs.length true) xs = xs :=
+  masked_all_true xs
 
 /-- the error table: the eight codes the driver knows, everything else `UnknownFirmwareError(ack)` —
 and no two acknowledgements map to the same error, so "the device's own error" identifies the code -/
@@ -117,40 +193,45 @@ theorem firmware_err_injective (a b : Nat) (h : firmwareErr a = firmwareErr b) :
 /-- **`zero_timeout_once`**: once the clock has passed the timeout (with a zero timeout: after the
 first poll, since `elapsed() > 0`) no further poll is made — later script entries are never
 consulted, at most one `receive` is issued — and with a zero timeout the frame counts as done
-whatever the acknowledgements are, provided the link is up and no device reports an error. -/
-theorem zero_timeout_once (tz : Bool) (tx : List Tx) (rx : List Rx) (p : Poll) (ps : List Poll) (hl : p.late = true) :
-    waitMsgProcessed tz tx rx (p :: ps) = waitMsgProcessed tz tx rx [p] ∧
-    (waitMsgProcessed tz tx rx (p :: ps)).2.2.countP isRecv ≤ 1 ∧
-    (∀ new, tz = true → p.isOpen = true → p.recv = some new → (∀ r ∈ recvInto rx new, r.ack &&& 0x80 = 0) →
-      (waitMsgProcessed tz tx rx (p :: ps)).1 = .ok) := by
-  refine ⟨(wait_late_once tz tx rx p ps hl).1, (wait_late_once tz tx rx p ps hl).2, ?_⟩
+whatever the acknowledgements are, provided the link is up and no **enabled** device reports an
+error (a disabled device may hold any error acknowledgement). -/
+theorem zero_timeout_once (tz : Bool) (en : List Bool) (tx : List Tx) (rx : List Rx) (p : Poll) (ps : List Poll)
+    (hl : p.late = true) :
+    waitMsgProcessed tz en tx rx (p :: ps) = waitMsgProcessed tz en tx rx [p] ∧
+    (waitMsgProcessed tz en tx rx (p :: ps)).2.2.countP isRecv ≤ 1 ∧
+    (∀ new, tz = true → p.isOpen = true → p.recv = some new → (∀ r ∈ masked en (recvInto rx new), r.ack &&& 0x80 = 0) →
+      (waitMsgProcessed tz en tx rx (p :: ps)).1 = .ok) := by
+  refine ⟨(wait_late_once tz en tx rx p ps hl).1, (wait_late_once tz en tx rx p ps hl).2, ?_⟩
   intro new htz ho hr hne
   subst htz
-  exact wait_zero_not_required tx rx new p ps hl ho hr hne
+  exact wait_zero_not_required en tx rx new p ps hl ho hr hne
 
 /-- **`terminates` (one frame)**: if the script's clock eventually exceeds the timeout, waiting for
 a frame ends with a proper result after at most (index of the first late poll + 1) polls. -/
-theorem terminates_wait (tz : Bool) (tx : List Tx) (rx : List Rx) (polls : List Poll)
+theorem terminates_wait (tz : Bool) (en : List Bool) (tx : List Tx) (rx : List Rx) (polls : List Poll)
     (hfair : polls.any (·.late) = true) :
-    (waitMsgProcessed tz tx rx polls).1 ≠ .stuck ∧
-    (waitMsgProcessed tz tx rx polls).2.2.length ≤ 2 * (polls.findIdx (·.late) + 1) :=
-  ⟨wait_not_stuck tz tx polls rx hfair, wait_polls_bound tz tx polls rx⟩
+    (waitMsgProcessed tz en tx rx polls).1 ≠ .stuck ∧
+    (waitMsgProcessed tz en tx rx polls).2.2.length ≤ 2 * (polls.findIdx (·.late) + 1) :=
+  ⟨wait_not_stuck tz en tx polls rx hfair, wait_polls_bound tz en tx polls rx⟩
 
-/-- **`terminates` (whole send)**: with one operation per device, a script of at least
-`max 1 (frames still needed)` turns, each of whose clocks eventually exceeds the timeout, `send`
-ends with a proper result and transmits at most `max 1 (maxOp d.frames)` frames. -/
+/-- **`terminates` (whole send)**: with one generator answer per device, a script of at least
+`max 1 (frames still needed by the enabled devices)` turns, each of whose clocks eventually exceeds
+the timeout, `send` ends with a proper result and transmits at most
+`max 1 (maxOp (generate st.enable d.frames))` frames — the operations of disabled devices are never
+generated and do not count. -/
 theorem terminates_send (opt : Option Nat) (d : Datagram) (st : St) (updateOk : Bool) (fs : List FrameScript)
-    (hlen : d.frames.length = st.tx.length) (hn : max 1 (maxOp d.frames) ≤ fs.length)
+    (hlen : d.frames.length = st.tx.length) (hn : max 1 (maxOp (generate st.enable d.frames)) ≤ fs.length)
     (hfair : fs.all (fun f => f.polls.any (·.late)) = true) :
     (send opt d st (constScript updateOk fs)).1 ≠ .stuck ∧
-    (send opt d st (constScript updateOk fs)).2.2.countP isSend ≤ max 1 (maxOp d.frames) := by
+    (send opt d st (constScript updateOk fs)).2.2.countP isSend ≤ max 1 (maxOp (generate st.enable d.frames)) := by
   simp only [send, constScript]
   split
   · simp
   · simp only [sendImpl]
     split
     · simp [isSend]
-    · have := sendLoop_terminates (opt.getD d.timeoutMs == 0) d.tag (fs.map fun f _ => f) st d.frames hlen
+    · have := sendLoop_terminates (opt.getD d.timeoutMs == 0) d.tag (fs.map fun f _ => f) st (generate st.enable d.frames)
+        (by simp only [generate]; exact Nat.le_of_eq (masked_length_eq st.enable d.frames st.tx hlen))
         (by simpa using hn)
         (by
           intro f hf tx
@@ -195,25 +276,26 @@ theorem open_on_devices_is_open (opt : Option Nat) (ds : List Dev) (drop : DropS
   simp
 
 /-- … and the first real datagram after `open` (any one-frame datagram) takes effect on every
-device, as does every one after it: once a session's frame has reached the devices, each newly
+device (all of them enabled, as they are after `open`), as does every one after it: once a session's frame has reached the devices, each newly
 packed frame is processed (induction step for any id `i`). -/
 theorem datagram_after_open_processed (opt : Option Nat) (n tag i t0 : Nat) (rx : List Rx) (hrx : rx.length = n) :
-    let r := devSend opt (oneFrame n tag) { tx := List.replicate n ⟨i, t0⟩, rx := rx } (List.replicate n ⟨i, i⟩)
+    let r := devSend opt (oneFrame n tag) { tx := List.replicate n ⟨i, t0⟩, rx := rx, enable := List.replicate n true }
+      (List.replicate n ⟨i, i⟩)
     r.res = .ok ∧ r.processed = List.replicate n true ∧
     r.st.tx = List.replicate n ⟨(i + 1) % 128, tag⟩ ∧ r.ds = List.replicate n ⟨(i + 1) % 128, (i + 1) % 128⟩ := by
   by_cases hi : i < 128
   · have := devSend_fresh opt n tag i t0 rx (List.replicate n ⟨i, i⟩) (by simp) hrx
       (by intro d hd; simp only [List.mem_replicate] at hd; rw [hd.2]; simp only; omega)
-    exact ⟨this.1, this.2.1, this.2.2.1, this.2.2.2.2⟩
+    exact ⟨this.1, this.2.1, this.2.2.1, this.2.2.2.2.1⟩
   · have := devSend_fresh opt n tag i t0 rx (List.replicate n ⟨i, i⟩) (by simp) hrx
       (by intro d hd; simp only [List.mem_replicate] at hd; rw [hd.2]; simp only; omega)
-    exact ⟨this.1, this.2.1, this.2.2.1, this.2.2.2.2⟩
+    exact ⟨this.1, this.2.1, this.2.2.1, this.2.2.2.2.1⟩
 
 /-! ## Non-vacuity: concrete scripts meeting the hypotheses, with the outcomes the property names -/
 
 example : st2.wf = true := by decide
 example : (send (some 20) { frames := [1, 1], tag := 0xEE } st2 (constScript true lateAck)).1 = .ok := by decide +kernel
-example : ackedBeforeNext none (send (some 20) { frames := [1, 1], tag := 0xEE } st2 (constScript true lateAck)).2.2 = true := by
+example : ackedBeforeNext st2.enable none (send (some 20) { frames := [1, 1], tag := 0xEE } st2 (constScript true lateAck)).2.2 = true := by
   decide +kernel
 example : lateAck.all (fun f => f.polls.any (·.late)) = true := by decide
 /-- error acknowledgement from the second device only → that device's error -/
@@ -242,5 +324,61 @@ example : (ecatRecv ⟨2, 2⟩ 2 0) = (⟨2, 2⟩, false) := by decide +kernel
 /-- what the throw-away frame is for: without it (`Clear` sent as the first frame, id 1) a device
 left with id 1 would swallow the initialisation -/
 example : (deliver [⟨1, 1⟩] [⟨1, TAG_CLEAR⟩]).map (·.2) = [false] := by decide +kernel
+
+
+/-! ### … under a non-trivial enable mask: device 0 disabled (below two enabled ones), holding a stale
+error acknowledgement `0x88`; its frame still carries id 2, the enabled devices are at id 5 -/
+
+example : st3m.wf = true := by decide
+/-- the enabled devices acknowledge on the second / third poll, the disabled one answers its stale
+error throughout: `Ok`, every frame acknowledged by every enabled device, clock fair -/
+example : (send (some 20) { frames := [1, 1, 1], tag := 0xEE } st3m (constScript true lateAckMasked)).1 = .ok := by
+  decide +kernel
+example : ackedBeforeNext st3m.enable none
+    (send (some 20) { frames := [1, 1, 1], tag := 0xEE } st3m (constScript true lateAckMasked)).2.2 = true := by
+  decide +kernel
+example : lateAckMasked.all (fun f => f.polls.any (·.late)) = true := by decide
+/-- … and the disabled device's frame (id 2) went out unchanged, the enabled ones moved to id 6 -/
+example : (send (some 20) { frames := [1, 1, 1], tag := 0xEE } st3m (constScript true lateAckMasked)).2.1.tx
+    = [⟨2, 1⟩, ⟨6, 0xEE⟩, ⟨6, 0xEE⟩] := by decide +kernel
+/-- the disabled device "acknowledges" (answers the id its untouched frame carries) while enabled
+device 2 never does: `ConfirmResponseFailed`, not `Ok` (a `zip` of the enabled devices with the
+per-device flags would judge device 2 by device 1's slot and device 1 by device 0's) -/
+example : (send (some 20) { frames := [1, 1, 1], tag := 0xEE } st3m
+    (constScript true [{ isOpen := true, sendOk := true, polls := [⟨true, some [⟨0, 2⟩, ⟨0, 6⟩, ⟨0, 5⟩], true⟩] }])).1
+    = .err .confirmResponseFailed := by decide +kernel
+/-- an enabled device behind the disabled one reports an error: that error, although the two slots
+before it look acknowledged -/
+example : (send (some 20) { frames := [1, 1, 1], tag := 0xEE } st3m
+    (constScript true [{ isOpen := true, sendOk := true, polls := [⟨true, some [⟨0, 2⟩, ⟨0, 6⟩, ⟨0, 0x8E⟩], true⟩] }])).1
+    = .err .invalidSilencerSettings := by decide +kernel
+/-- the disabled device's stale error is not the result of a send that timed out (non-zero timeout:
+`ConfirmResponseFailed`) or that ran with a zero timeout and lagging acknowledgements (`Ok`) -/
+example : (send (some 20) { frames := [1, 1, 1], tag := 0xEE } st3m
+    (constScript true [{ isOpen := true, sendOk := true, polls := [⟨true, some [⟨0, 0x88⟩, ⟨0, 6⟩, ⟨0, 5⟩], true⟩] }])).1
+    = .err .confirmResponseFailed := by decide +kernel
+example : (send (some 0) { frames := [1, 1, 1], tag := 0xEE } st3m
+    (constScript true [{ isOpen := true, sendOk := true, polls := [⟨true, some [⟨0, 0x88⟩, ⟨0, 6⟩, ⟨0, 5⟩], true⟩] }])).1
+    = .ok := by decide +kernel
+/-- the hypotheses of `disabled_acks_irrelevant` are met by scripts (and states) that really differ:
+stale error `0x88` vs. the id the disabled device's frame carries vs. garbage -/
+example : blankSt st3m = blankSt { st3m with rx := [⟨7, 2⟩, ⟨0, 5⟩, ⟨0, 5⟩] } := by decide
+example : blankScript st3m.enable (constScript true lateAckMasked) =
+    blankScript st3m.enable (constScript true
+      [{ isOpen := true, sendOk := true, polls :=
+          [⟨true, some [⟨9, 2⟩, ⟨0, 5⟩, ⟨0, 5⟩], false⟩, ⟨true, some [⟨1, 0x55⟩, ⟨0, 6⟩, ⟨0, 5⟩], false⟩,
+           ⟨true, some [⟨0, 0x80⟩, ⟨0, 6⟩, ⟨0, 6⟩], true⟩] }]) := by
+  rw [blankScript_const, blankScript_const]; exact congrArg (constScript true) (by decide)
+/-- the frame counts of a disabled device do not count: it "needs" 9 frames, one is sent -/
+example : max 1 (maxOp (generate st3m.enable [9, 1, 1])) = 1 := by decide
+/-- a delivering link in front of `st3m`: the disabled device 0 (last id 2 = its frame's id) drops the
+frame, the enabled ones process it -/
+example : (devSend (some 20) { frames := [1, 1, 1], tag := 0xEE } st3m [⟨2, 0x88⟩, ⟨5, 5⟩, ⟨5, 5⟩]).processed
+    = [false, true, true] := by decide +kernel
+example : (devSend (some 20) { frames := [1, 1, 1], tag := 0xEE } st3m [⟨2, 0x88⟩, ⟨5, 5⟩, ⟨5, 5⟩]).res = .ok := by
+  decide +kernel
+/-- `close_impl` re-enables: its frames carry a fresh id for the formerly disabled device too -/
+example : (closeImpl st3m ⟨true, constScript false [], constScript false [], constScript false [], true⟩).2.1.enable
+    = [true, true, true] := by decide +kernel
 
 end Autd3.Ctl
